@@ -262,11 +262,25 @@ pub fn run(args: &Args, mut out: Out) {
             m.insert("ws".into(), json!(ws_str(&conn.write_state)));
             out.ev(sid, "Call", ev);
         }
+        let mut got = Vec::new();
         if let Some(h) = late_sender {
             let _ = h.join();
+            // Body bytes that arrived after the server stopped reading are still unread in its kernel queue when the
+            // connection is dropped, so the close is a reset, and a reset discards what the client has not read yet: take
+            // what the server has written so far BEFORE the connection goes away.
+            // (over loopback whatever the server has written is already in the client's queue: a non-blocking read gets it)
+            client.set_nonblocking(true).unwrap();
+            let mut buf = [0u8; 4096];
+            loop {
+                match client.read(&mut buf) {
+                    Ok(0) => break,
+                    Ok(k) => got.extend_from_slice(&buf[..k]),
+                    Err(_) => break,
+                }
+            }
+            client.set_nonblocking(false).unwrap();
         }
         drop(conn);
-        let mut got = Vec::new();
         let _ = client.read_to_end(&mut got);
         out.ev(sid, "Drain", json!({"wire": wire_tokens(&got)}));
     }
